@@ -142,7 +142,7 @@ def witness_cases(c, n_shards, per_witness, seed, max_cases=None, extra_sizes=((
 
 def mc_slices(c, thorough):
     depth = 4 if thorough else 3
-    for sl in ("cursor", "margins", "content", "avatar", "ctrla"):
+    for sl in ("cursor", "margins", "content", "avatar", "ctrla", "petscii", "viewdata", "mode7", "atascii"):
         cfg = f"MC_Term_{sl}.cfg"
         if thorough:
             src = open(os.path.join(vlib.ROOT, SPEC, cfg)).read().replace("MaxHist = 3", f"MaxHist = {depth}")
